@@ -16,9 +16,11 @@ import Verif.Model.Common
     authzUpdate               DB.GetAuthorization (loads every challenge) + (*Authorization).UpdateStatus
     authzLoop, orderUpdate    (*Order).UpdateStatus (every authorization is loaded and updated, no
                               early exit; updates made before an error persist)
-    Deny                      a storage fault of one request: the update writes of one object fail
+    Deny                      a storage fault of one request: the update writes of one object fail, or the
+                              k-th create write of new-order, or the index write, or the Wire token write
     finalize                  api.FinalizeOrder + (*Order).Finalize; "CSR names match" (o.sans, C13),
-                              "signing succeeded" and "the final UpdateOrder failed" are inputs
+                              "signing succeeded" and "the final UpdateOrder failed" are inputs; a Wire order
+                              needs its two tokens (the CSRs of the correspondence have a well-formed Wire subject)
     pollIndex                 nosql updateAddOrderIDs: every indexed order of the account is
                               updated, the pending ones are kept
     attest                    api.GetChallenge + deviceAttest01Validate (fingerprint written to the
@@ -28,7 +30,7 @@ import Verif.Model.Common
     getOrder/getAuthz/respond api.GetOrder / GetAuthorization / GetChallenge
     listOrders                api.GetOrdersByAccountID
   Time is the input `now` of every request (seconds); `clock.Now().After(x.ExpiresAt)` is `now > expires`.
-  Not modelled: nonces, JWS (C12); what a validator checks (C11); what is in a stored Wire token, the finalization of Wire orders.
+  Not modelled: nonces, JWS (C12); what a validator checks (C11); what is in a stored Wire token, createWireSubject (C13).
 -/
 namespace Verif.AcmeSM
 open Verif
@@ -61,6 +63,9 @@ structure Order where
   cert : Option Nat
   /-- the order has a (non-empty) permanent identifier: Finalize takes the attested branch -/
   attested : Bool := false
+  /-- a Wire order (one wireapp-user and one wireapp-device identifier): Finalize needs the two
+      tokens the Wire challenges filed under this order -/
+  wire : Bool := false
   deriving Repr, DecidableEq
 
 structure Cert where
@@ -100,6 +105,13 @@ inductive Deny where
   | chal (c : Nat)
   | authz (a : Nat)
   | order (o : Nat)
+  /-- the k-th (from 0) create write of a new-order request fails (challenges, then the
+      authorization, identifier by identifier, then the order); what was created before stays -/
+  | create (k : Nat)
+  /-- the write of the account's order index fails (updateAddOrderIDs: `save`) -/
+  | index
+  /-- CreateOidcToken / CreateDpopToken fails -/
+  | token
   deriving Repr, DecidableEq
 
 /-- the fingerprint write of deviceAttest01Validate (status and everything else as loaded) -/
@@ -293,6 +305,8 @@ def finalize (d : Deny) (s : Store) (acct o now : Nat) (csrKey : Nat) (csrOk sig
       | (s1, some .valid) => (s1, .ok .valid)
       | (s1, some .ready) =>
         if !keyGate (orderFp s1 ord) ord.attested csrKey then (s1, .unauthorized)
+        -- a Wire order: GetDpopToken / GetOidcToken for THIS order ("token not found" is a `malformed` error)
+        else if ord.wire && !(s1.tokens.contains (o, true) && s1.tokens.contains (o, false)) then (s1, .malformed)
         else if !csrOk then (s1, .badCSR)
         else if !signOk then (s1, .refused)
         else
@@ -334,6 +348,7 @@ def pollIndex (d : Deny) (s : Store) (acct now : Nat) (incl : Bool) (add : List 
   | (s1, some keep) =>
     let nu := keep ++ add
     if old = [] ∧ nu = [] then (s1, some [])
+    else if d = .index then (s1, none)
     else (setIndex s1 acct nu, some nu)
 
 /-- newAuthorization for the identifiers of a new order; `nch` = number of challenges of each -/
@@ -348,20 +363,51 @@ def createAuthzs (s : Store) (acct exp : Nat) : List (Nat × Bool) → Store × 
     match createAuthzs s2 acct exp ns with
     | (s3, as) => (s3, a :: as)
 
-/-- api.NewOrder (identifiers already passed Validate and the policies) -/
-def newOrder (d : Deny) (s : Store) (acct now : Nat) (nch : List (Nat × Bool)) : Store × Resp :=
+/-- where the k-th create write of a new-order request falls: the identifiers whose challenges and
+    authorization are all created before it, and the challenges (number, kind) of the identifier
+    it hits that were created without their authorization; `none`: the request makes fewer creates -/
+def splitCreates : List (Nat × Bool) → Nat → Option (List (Nat × Bool) × Option (Nat × Bool))
+  | [], k => if k = 0 then some ([], none) else none
+  | (n, a) :: rest, k =>
+    if k < n then some ([], some (k, a))
+    else if k = n then some ([], some (n, a))
+    else match splitCreates rest (k - (n + 1)) with
+      | some (pre, ex) => some ((n, a) :: pre, ex)
+      | none => none
+
+def createFault (d : Deny) (nch : List (Nat × Bool)) : Option (List (Nat × Bool) × Option (Nat × Bool)) :=
+  match d with
+  | .create k => splitCreates nch k
+  | _ => none
+
+/-- challenges created for an identifier whose authorization was never stored -/
+def addChals (s : Store) (acct : Nat) : Option (Nat × Bool) → Store
+  | none => s
+  | some (m, att) =>
+    { s with chals := s.chals ++ List.replicate m ({ acct := acct, status := .pending, attest := att } : Chal) }
+
+/-- api.NewOrder (identifiers already passed Validate and the policies). A failing create write
+    answers 500 and leaves what was created before it (objects no order refers to). When the index
+    write fails the order just stored is deleted again (`db.Del`), its authorizations and
+    challenges stay; the other open orders of the account have been updated by then. -/
+def newOrder (d : Deny) (s : Store) (acct now : Nat) (nch : List (Nat × Bool)) (wire : Bool) : Store × Resp :=
   if nch = [] then (s, .malformed)
   else
     let exp := now + lifetime
-    match createAuthzs s acct exp nch with
-    | (s1, azs) =>
-      let o := s1.orders.length
-      let s2 := { s1 with orders := s1.orders ++
-        [({ acct := acct, status := .pending, expires := exp, authzs := azs, cert := none,
-            attested := nch.any (·.2) } : Order)] }
-      match pollIndex d s2 acct now false [o] with
-      | (s3, none) => (s3, .ise)
-      | (s3, some _) => (s3, .created o)
+    match createFault d nch with
+    | some (pre, extra) => (addChals (createAuthzs s acct exp pre).1 acct extra, .ise)
+    | none =>
+      match createAuthzs s acct exp nch with
+      | (s1, azs) =>
+        if d = .index then ((pollLoop d s1 now false ((indexOf s1 acct).getD [])).1, .ise)
+        else
+        let o := s1.orders.length
+        let s2 := { s1 with orders := s1.orders ++
+          [({ acct := acct, status := .pending, expires := exp, authzs := azs, cert := none,
+              attested := nch.any (·.2), wire := wire } : Order)] }
+        match pollIndex d s2 acct now false [o] with
+        | (s3, none) => (s3, .ise)
+        | (s3, some _) => (s3, .created o)
 
 /-- api.GetOrdersByAccountID -/
 def listOrders (d : Deny) (s : Store) (acct urlAcct now : Nat) : Store × Resp :=
@@ -390,12 +436,12 @@ def wire (d : Deny) (s : Store) (acct c now : Nat) (dpop : Bool) (out : Outcome)
         match ids.getLast? with
         | none => (s2, .ise)
         | some o =>
-          if s2.tokens.contains (o, dpop) then (s2, .ise)
+          if d = .token ∨ s2.tokens.contains (o, dpop) then (s2, .ise)
           else ({ s2 with tokens := (o, dpop) :: s2.tokens }, .ok .valid)
     else (s1, r)
 
 inductive Op where
-  | newOrder (acct now : Nat) (nch : List (Nat × Bool))
+  | newOrder (acct now : Nat) (nch : List (Nat × Bool)) (wire : Bool)
   | respond (acct c now : Nat) (out : Outcome)
   | wire (acct c now : Nat) (dpop : Bool) (out : Outcome)
   | attest (acct c az now : Nat) (out : Outcome)
@@ -406,7 +452,7 @@ inductive Op where
   deriving Repr, DecidableEq
 
 def Op.now : Op → Nat
-  | .newOrder _ n _ => n
+  | .newOrder _ n _ _ => n
   | .respond _ _ n _ => n
   | .wire _ _ n _ _ => n
   | .attest _ _ _ n _ => n
@@ -417,7 +463,7 @@ def Op.now : Op → Nat
 
 /-- one request under a storage fault `d` (`Deny.none`: no fault) -/
 def step (d : Deny) (s : Store) : Op → Store × Resp
-  | .newOrder acct now nch => newOrder d s acct now nch
+  | .newOrder acct now nch w => newOrder d s acct now nch w
   | .respond acct c _ out => respond d s acct c out
   | .wire acct c now dpop out => wire d s acct c now dpop out
   | .attest acct c az _ out => attest d s acct c az out
@@ -456,7 +502,7 @@ def Req.finalWriteFails (r : Req) : Bool :=
   is C12; here a request either is authenticated as account `op.acct` or does not reach a handler. -/
 
 def Op.acct : Op → Nat
-  | .newOrder a _ _ => a
+  | .newOrder a _ _ _ => a
   | .respond a _ _ _ => a
   | .wire a _ _ _ _ => a
   | .attest a _ _ _ _ => a
